@@ -51,7 +51,7 @@ if meta.get("demo_cmd") and "--skip-demo" not in sys.argv:
     subprocess.check_call(["git", "-C", clone, "stash", "pop", "-q"])
     shutil.rmtree(os.path.join(clone, "_b"), ignore_errors=True)
     print("demo with change:", res["demo_with_change"].get("exit"), "| without:", res["demo_without_change"].get("exit"))
-env = dict(os.environ, CMI_REPO=clone, CMI_EVIDENCE_DIR="/scratch/mut-evidence", CMI_RUN_ROOT="/scratch/mut-run")
+env = dict(os.environ, CMI_REPO=clone, CMI_EVIDENCE_DIR="/scratch/mut-evidence-" + name, CMI_RUN_ROOT="/scratch/mut-run-" + name)
 res["checks"] = {}
 for prop in props:
     t0 = time.time()
@@ -65,6 +65,6 @@ for d in os.listdir(os.path.join(V, ".build")):
     if d.endswith("-" + tag):
         shutil.rmtree(os.path.join(V, ".build", d), ignore_errors=True)
 shutil.rmtree(clone, ignore_errors=True)
-shutil.rmtree("/scratch/mut-run", ignore_errors=True)
+shutil.rmtree("/scratch/mut-run-" + name, ignore_errors=True)
 json.dump(res, open(os.path.join(sdir, "eval.json"), "w"), indent=1)
 print(json.dumps(res)[:600])
